@@ -59,6 +59,7 @@ func c10Groups(tier string) []core.Group {
 		}
 	}
 	gs = append(gs, core.Group{Key: "misfits", Run: c10Misfits})
+	gs = append(gs, core.Group{Key: "operand-list", Run: c10OperandList})
 	return gs
 }
 
@@ -489,6 +490,59 @@ func c10Misfits(c *core.Ctx) {
 				return model.Concat(axis, ms...)
 			}
 			c10Exec(c, "misfit", t, m.shapes, lays, m.axis, m.call, want, true, m.name)
+		}
+	}
+	c.Control(true)
+}
+
+// c10OperandList: the engine-level entry point takes the operands as a slice; that slice is the caller's and keeps naming
+// the caller's tensors, whatever private copies the engine works on (operands are "left unchanged": so is their list).
+func c10OperandList(c *core.Ctx) {
+	t := model.TF64
+	shape := []int{2, 3}
+	n := model.Size(shape)
+	lays := []string{gen.LC, gen.LF, gen.LT, gen.LS}
+	for _, l0 := range lays {
+		for _, l1 := range lays {
+			for _, l2 := range lays {
+				var ops []*gen.Operand
+				ok := true
+				for k, lay := range []string{l0, l1, l2} {
+					op, err := gen.Build(model.New(t, shape, gen.Ramp(t, n, int64(1+10*k))), lay, c.Rng)
+					if err != nil || op.Layout != lay {
+						ok = false
+						break
+					}
+					ops = append(ops, op)
+				}
+				if !ok {
+					continue
+				}
+				others := []tensor.DenseTensor{ops[1].D, ops[2].D}
+				keep := append([]tensor.DenseTensor(nil), others...)
+				var res tensor.DenseTensor
+				var err error
+				p, msg := core.Catch(func() { res, err = tensor.StdEng{}.StackDense(ops[0].D, 0, others...) })
+				key := core.Sig("StdEng.StackDense", "operand-list", l0, l1, l2)
+				caseKey := fmt.Sprintf("operand-list/StackDense/%s+%s+%s", l0, l1, l2)
+				desc := map[string]interface{}{"layouts": []string{l0, l1, l2}, "shape": shape}
+				c.Eval(key, true)
+				if others[0] != keep[0] || others[1] != keep[1] {
+					c.Violation(core.Sig("StdEng.StackDense", "operand-list", "caller-slice-rewritten"), caseKey, desc, "the caller's slice still names the caller's tensors", "an element was replaced by a private copy")
+					continue
+				}
+				if p || err != nil {
+					_ = msg
+					c.Refused("StackDense|operand-list")
+					continue
+				}
+				want, wok := model.Stack(0, ops[0].M, ops[1].M, ops[2].M)
+				if wok && res != nil {
+					if e := gen.ReadMatches(res, want); e != nil {
+						c.Violation(core.Sig("StdEng.StackDense", "operand-list", "wrong-result"), caseKey, desc, short(want.V), e.Error())
+					}
+				}
+			}
 		}
 	}
 	c.Control(true)
